@@ -33,3 +33,11 @@ Definition frames_ok (c : @convolver ROps) (n : nat) : Prop :=
 (* the encoding e stands for the matrix M *)
 Definition represents (e : @enc ROps) (M : @mat ROps) (n P : nat) : Prop :=
   forall d p, (d < n)%nat -> (p < P)%nat -> mget M d p = E e d p.
+(* the k-th unmasked pixel in slim order *)
+Definition Uat (m : mask) (k : nat) : px := nth k (unmasked m) (0%Z, 0%Z).
+(* the kernel as a function on Z x Z, zero outside its shape (same test order as w_tilde_curvature_value_from) *)
+Definition inrange (K : @kernel ROps) (a : Z * Z) : bool :=
+  ((fst a >=? 0) && (snd a >=? 0) && (fst a <? rows K) && (snd a <? cols K))%Z.
+Definition kz (K : @kernel ROps) (a : Z * Z) : R := if inrange K a then getZ 0 K a else 0.
+(* the kernel cell that carries flux from pixel p onto pixel t: t - p + (rows K // 2, cols K // 2) *)
+Definition koff (K : @kernel ROps) (t p : px) : Z * Z := (fst t - fst p + rows K / 2, snd t - snd p + cols K / 2)%Z.
